@@ -2,7 +2,7 @@
 import ast
 
 from ..pymodel import AnalysisError, FuncInfo, parent
-from ..astutil import (src, is_name, is_attr, is_const, const_num, call_name, walk_no_nested,
+from ..astutil import (canon, canon_src, src, is_name, is_attr, is_const, const_num, call_name, walk_no_nested,
                        strip_docstring, compare_atoms, enclosing_stmt, calls_in, names_in,
                        assignments_to, norm_compare, orient, kwarg)
 from ..cfg import cfg_of, ENTRY, EXIT, RAISE
@@ -169,7 +169,7 @@ def rules(ctx):
             ws = []
             for n in ast.walk(loop):
                 if isinstance(n, ast.IfExp) and 'pow(2' in src(n):
-                    ws.append(n)
+                    ws.append(canon(n))
             if ws:
                 for w in ws:
                     okw = src(w.test) == flag and 'pow(2' in src(w.body) and const_num(w.orelse) == 1
@@ -311,8 +311,10 @@ def slack_guards(ctx, rid, fns):
                     if isinstance(v.op, ast.Sub):
                         offs = src(v.right)
                 mn = None
-                for s_, v in assignments_to(fn.node, 'min_val'):
-                    mn = 'min_val'
+                for m_ in walk_no_nested(strip_docstring(fn.node.body)):
+                    if isinstance(m_, ast.Assign) and isinstance(m_.targets[0], ast.Tuple) and len(m_.targets[0].elts) == 2 \
+                            and (is_name(m_.value, 'bounds') or (isinstance(m_.value, ast.Call) and call_name(m_.value) == '_get_bounds')):
+                        mn = src(m_.targets[0].elts[0])
                 ok = False
                 if offs and mn:
                     want = [('falsy', '%s - %s' % (mn, offs)), (mn, '==', offs), (mn, '>=', offs), (offs, '==', mn),
